@@ -251,14 +251,23 @@ type itemErr struct {
 	err  error
 }
 
+var collectCalls int
+
 func collect[T any](seq ociregistry.Seq[T]) (items []any, n int) {
 	if seq == nil {
 		return []any{"NIL-SEQ"}, 0
 	}
+	// every other consumer stops at the first error, the way ociregistry.All and most range loops do; the
+	// others are patient but bounded
+	collectCalls++
+	impatient := collectCalls%2 == 0
 	seq(func(x T, err error) bool {
 		n++
 		items = append(items, itemErr{x, err})
-		return n < 5 // the consumer is patient but bounded
+		if impatient && err != nil {
+			return false
+		}
+		return n < 5
 	})
 	// The returned sequence is a value: ranging over it again belongs to the same call and has to
 	// deliver the same items and the very same error (nothing is constructed anew).
@@ -267,6 +276,9 @@ func collect[T any](seq ociregistry.Seq[T]) (items []any, n int) {
 	seq(func(x T, err error) bool {
 		m++
 		again = append(again, itemErr{x, err})
+		if impatient && err != nil {
+			return false
+		}
 		return m < 5
 	})
 	if !reflect.DeepEqual(items, again) {
